@@ -226,6 +226,13 @@ Proof.
   destruct s as [st eni ty trunk x4 x6 inh fw dw reqs cap batch now held log], x4, x6.
   unfold prune_both, prune_q, set_allocs; cbn. eexists; eexists; reflexivity.
 Qed.
+Lemma adm_prune_shape s pod nc : exists a4 a6, adm_prune s pod nc = set_allocs s a4 a6.
+Proof.
+  destruct s as [st eni ty trunk x4 x6 inh fw dw reqs cap batch now held log], x4, x6.
+  unfold adm_prune, prune_q, set_allocs, plen, setlen; cbn.
+  repeat match goal with |- context [if ?c then _ else _] => destruct c end; eexists; eexists; reflexivity.
+Qed.
+Arguments adm_prune : simpl never.
 Arguments loop_head : simpl never.
 Arguments prune_both : simpl never.
 Ltac open_heads H :=
@@ -234,6 +241,8 @@ Ltac open_heads H :=
                               destruct (loop_head_shape x) as [a4 [a6 E]]; rewrite E in H; clear E; cbn in H
   | context [prune_both ?x] => let a4 := fresh "a4'" in let a6 := fresh "a6'" in let E := fresh "Eh" in
                                destruct (prune_both_shape x) as [a4 [a6 E]]; rewrite E in H; clear E; cbn in H
+  | context [adm_prune ?x ?p ?n] => let a4 := fresh "a4'" in let a6 := fresh "a6'" in let E := fresh "Eh" in
+                               destruct (adm_prune_shape x p n) as [a4 [a6 E]]; rewrite E in H; clear E; cbn in H
   end.
 
 (* ---- preservation, label by label ------------------------------------------------------------ *)
@@ -268,7 +277,7 @@ Lemma inv_nochange s l s' : Inv s -> step s l = Some s' ->
   | _ => False end -> Inv s'.
 Proof.
   intros HI Hs Hl. open_slot s. unfold Inv in *. destruct l; try contradiction; cbn in Hs |- *.
-  - break_step Hs. inversion Hs; subst. exact HI.
+  - break_step Hs; inversion Hs; subst; cbn; exact HI.
   - break_step Hs; inversion Hs; subst; cbn; done_inv HI; intros n4 n6 H; discriminate.
   - break_step Hs; inversion Hs; subst; cbn; done_inv HI; intros n4 n6 H; discriminate.
   - break_step Hs; inversion Hs; subst; cbn; done_inv HI; intros n4 n6 H; discriminate.
@@ -750,7 +759,8 @@ Proof.
   { intros Hx. destruct (i_dl _ _ _ _ _ _ _ _ HI Hx) as (A & _). destruct (alloc_kind_deleting s pod nc pin erdma A) as [k Hk]. congruence. }
   assert (HQ : InvC (f_set (s_4 s)) (f_set (s_6 s)) (s_held s) (rput r (new_req pod nc false 0 0 false false) (s_reqs s)) (s_dw s) (s_st s) (s_fw s) (s_eni s)).
   { apply inv_add_req; try assumption; try reflexivity. cbn. intros Hp r' q' F Hq. exact (unfinished_for_false s pod Eu Hp r' q' F Hq). }
-  clear -HQ. unfold Inv. destruct s as [st eni ty trunk x4 x6 inh fw dw reqs cap batch now held log], x4, x6, e4, e6; cbn in *; exact HQ.
+  clear -HQ. unfold Inv. destruct (adm_prune_shape s pod nc) as [a4' [a6' Eh]]. rewrite Eh. clear Eh.
+  destruct s as [st eni ty trunk x4 x6 inh fw dw reqs cap batch now held log], x4, x6, e4, e6; cbn in *; exact HQ.
 Qed.
 
 (* ---- primitive changes of ownership ---------------------------------------------------------- *)
